@@ -150,8 +150,8 @@ var fatalAllowed = map[string]string{
 
 var assertAllowed = map[string]string{
 	fRepl + "buildReadWriters | *controller.MultiWriterAt": "r.writer is only ever assigned a *MultiWriterAt by buildReadWriters itself",
-	fRep + "Resize | string":                              "inside `case string:` of a type switch on the same value",
-	fRep + "Resize | int64":                               "inside `case int64:` of a type switch on the same value",
+	fRep + "Resize | string":                               "inside `case string:` of a type switch on the same value",
+	fRep + "Resize | int64":                                "inside `case int64:` of a type switch on the same value",
 }
 
 func ruleC14Fatal(c *Ctx) {
